@@ -183,6 +183,13 @@ func (e *c09Env) runCase(c c09Case, rnd *rand.Rand) {
 	case "before-accept":
 		hook = "listener.serve.before_accept"
 	}
+	lateHook := "" // armed once the service is up
+	switch c.Placement {
+	case "conn-accepted-not-registered":
+		lateHook = "listener.conn.before_register"
+	case "backend-dial-in-flight":
+		lateHook = "redis.upstream.create_client.after_dial"
+	}
 	if hook != "" {
 		s.HookArm(hook, sutc.HookAction{Mode: "park", Times: 1})
 	}
@@ -208,7 +215,7 @@ func (e *c09Env) runCase(c c09Case, rnd *rand.Rand) {
 			s.StopProc(name, 5*time.Second)
 			return
 		}
-	default: // "serving": wait for the listener, open connections, put requests in flight
+	default: // "serving", "serving-deep-pipeline", "serving-after-host-replace": wait for the listener, open connections, put requests in flight
 		up := false
 		for i := 0; i < 400 && !up; i++ {
 			if cc, err := net.DialTimeout("tcp", addr, time.Second); err == nil {
@@ -226,6 +233,41 @@ func (e *c09Env) runCase(c c09Case, rnd *rand.Rand) {
 		if c.Proto == "redis" && c.Backend != "closed" && c.Backend != "refresh-silent" {
 			waitStat(s, name, "upstream.slots_refresh.success_total", 1, 5*time.Second)
 		}
+		if c.Placement == "serving-after-host-replace" && cl != nil {
+			// hosts are replaced several times under traffic: clients of the same address are stopped and re-created
+			var hw sync.WaitGroup
+			stopT := make(chan struct{})
+			for g := 0; g < 4; g++ {
+				hw.Add(1)
+				go func(g int) {
+					defer hw.Done()
+					cc, err := net.DialTimeout("tcp", addr, time.Second)
+					if err != nil {
+						return
+					}
+					defer cc.Close()
+					rd := resp.NewReader(cc)
+					for i := 0; ; i++ {
+						select {
+						case <-stopT:
+							return
+						default:
+						}
+						cc.SetDeadline(time.Now().Add(2 * time.Second))
+						cc.Write(resp.CmdS("SET", fmt.Sprintf("hr%d.%d", g, i%50), "v"))
+						if _, err := rd.Read(); err != nil {
+							return
+						}
+					}
+				}(g)
+			}
+			for i := 0; i < 6; i++ {
+				s.HostOp("host_replace", name, hostsOf(seeds))
+				time.Sleep(time.Duration(rnd.Intn(15)) * time.Millisecond)
+			}
+			close(stopT)
+			hw.Wait()
+		}
 		if c.Backend == "silent" && cl != nil {
 			for _, n := range cl.Nodes {
 				atomic.StoreInt32(&n.Silent, 1)
@@ -236,6 +278,38 @@ func (e *c09Env) runCase(c c09Case, rnd *rand.Rand) {
 				atomic.StoreInt32(&n.StopReading, 1)
 			}
 		}
+		if lateHook == "redis.upstream.create_client.after_dial" && cl != nil {
+			// a redirected request (handled on a backend reader goroutine, which nobody waits for) has to create a new backend
+			// client for the redirect target: its dial is held while the service is stopped
+			key := keysFor(cl, cl.Nodes[0], 1, "dial")[0]
+			if wc, err := net.DialTimeout("tcp", addr, 2*time.Second); err == nil { // both backend clients exist
+				rd := resp.NewReader(wc)
+				for _, n := range cl.Nodes {
+					wc.SetDeadline(time.Now().Add(2 * time.Second))
+					wc.Write(resp.CmdS("SET", keysFor(cl, n, 1, "warm")[0], "v"))
+					rd.Read()
+				}
+				wc.Close()
+			}
+			cl.Lock()
+			cl.SetOwnerLocked(fakecluster.Slot([]byte(key)), cl.Nodes[1]) // the proxy's table is stale: node 0 answers MOVED to node 1
+			cl.Unlock()
+			cl.Nodes[1].KillConns(true) // no client for node 1 any more
+			time.Sleep(40 * time.Millisecond)
+			s.HookArm(lateHook, sutc.HookAction{Mode: "park", Times: 1})
+			if cc, err := net.DialTimeout("tcp", addr, 2*time.Second); err == nil {
+				clients = append(clients, cc)
+				cc.Write(resp.CmdS("SET", key, "v"))
+			}
+			if !s.WaitParked(lateHook, 1, 3*time.Second) {
+				s.HookRelease(lateHook)
+				r.Inconclusive("hook-not-reached:" + lateHook)
+				lateHook = ""
+			}
+		}
+		if lateHook == "listener.conn.before_register" {
+			s.HookArm(lateHook, sutc.HookAction{Mode: "park", Times: 1})
+		}
 		for i := 0; i < c.Conns; i++ {
 			cc, err := net.DialTimeout("tcp", addr, 2*time.Second)
 			if err != nil {
@@ -244,8 +318,13 @@ func (e *c09Env) runCase(c c09Case, rnd *rand.Rand) {
 			clients = append(clients, cc)
 			if c.Proto == "redis" {
 				// requests in flight: a small pipeline per connection, replies are not awaited
+				// (placement "serving-deep-pipeline": more requests than the session queue holds)
 				var buf []byte
-				for k := 0; k < 1+rnd.Intn(5); k++ {
+				depth := 1 + rnd.Intn(5)
+				if c.Placement == "serving-deep-pipeline" {
+					depth = 40 + rnd.Intn(40)
+				}
+				for k := 0; k < depth; k++ {
 					buf = append(buf, resp.CmdS("SET", fmt.Sprintf("k%d.%d", i, k), strings.Repeat("v", 1+rnd.Intn(2000)))...)
 				}
 				cc.Write(buf)
@@ -254,6 +333,14 @@ func (e *c09Env) runCase(c c09Case, rnd *rand.Rand) {
 			}
 		}
 		time.Sleep(time.Duration(10+rnd.Intn(40)) * time.Millisecond)
+		if lateHook == "listener.conn.before_register" && !s.WaitParked(lateHook, 1, 3*time.Second) {
+			s.HookRelease(lateHook)
+			r.Inconclusive("hook-not-reached:" + lateHook)
+			lateHook = ""
+		}
+	}
+	if lateHook != "" {
+		hook = lateHook // released shortly after Stop has been called
 	}
 
 	// ---- the action
@@ -263,7 +350,7 @@ func (e *c09Env) runCase(c c09Case, rnd *rand.Rand) {
 			e.judgeHang(c, "drain", w)
 			return
 		}
-		if c.Placement == "serving" {
+		if strings.HasPrefix(c.Placement, "serving") {
 			// new connections are refused, established ones are untouched
 			if !portRefuses(addr) {
 				r.Violation("C09:drain-still-accepting:"+c.Proto, "after StopListen returned, new connections are still served", w)
@@ -440,7 +527,7 @@ func waitStat(s *sutc.SUT, name, suffix string, min uint64, timeout time.Duratio
 }
 
 func c09(r *ev.Run) {
-	r.Rule("lifecycle enumeration {stop immediately after start, while the bind is being retried (port occupied), after bind but before the socket is published, before the accept loop, while serving with 0 / 1 / 50 connections and requests in flight} x backend behaviour {responsive, silent, not reading, closed, silent for the slot refresh only} x {redis, tcp} x {stop, drain then stop, stop twice}, plus connection limits {1, 3, 16}; distinct = distinct (protocol, placement, backend, action, connections) tuples")
+	r.Rule("lifecycle enumeration {stop immediately after start, while the bind is being retried (port occupied), after bind but before the socket is published, before the accept loop, with a connection accepted but not yet registered, with a backend dial in flight, after repeated host replacements under traffic, while serving with 0 / 1 / 50 connections and requests in flight (also more than the session queue holds)} x backend behaviour {responsive, silent, not reading, closed, silent for the slot refresh only} x {redis, tcp} x {stop, drain then stop, stop twice}, plus connection limits {1, 3, 16}; distinct = distinct (protocol, placement, backend, action, connections) tuples")
 	r.Assume("bounded-progress restatement: Stop / StopListen must return within 6 s; an expired deadline is a hang only if the control channel still answers and two goroutine dumps 500 ms apart show the call parked in the same frame")
 	r.Assume("after Stop: nobody serves the port (SO_REUSEPORT makes 'can re-bind' meaningless), every downstream and upstream connection is closed within 3 s, no goroutine with a frame in samaritan/proc or samaritan/host remains (the process-wide tcp-shaker loop is excluded)")
 	e := &c09Env{r: r}
@@ -471,6 +558,12 @@ func c09(r *ev.Run) {
 					cases = append(cases, c09Case{proto, "serving", "responsive", n, act})
 				}
 			}
+			cases = append(cases, c09Case{proto, "conn-accepted-not-registered", "responsive", 1, "stop"}, c09Case{proto, "conn-accepted-not-registered", "responsive", 1, "drain-then-stop"})
+			if proto == "redis" {
+				cases = append(cases, c09Case{proto, "backend-dial-in-flight", "responsive", 0, "stop"})
+				cases = append(cases, c09Case{proto, "serving-deep-pipeline", "silent", 3, "stop"}, c09Case{proto, "serving-deep-pipeline", "responsive", 3, "stop"},
+					c09Case{proto, "serving-deep-pipeline", "not-reading", 2, "drain-then-stop"}, c09Case{proto, "serving-after-host-replace", "responsive", 2, "stop"})
+			}
 			backs := []string{"silent", "not-reading", "closed"}
 			if proto == "redis" {
 				backs = append(backs, "refresh-silent")
@@ -487,6 +580,7 @@ func c09(r *ev.Run) {
 		e.runCase(c, rnd)
 	}
 	c09Limit(r, e, rnd)
+	runAPIPart(r, "listener", false, nil, 10*time.Minute)
 	r.Sample(map[string]interface{}{"cases": len(cases), "example": cases[len(cases)/2]})
 	r.Require("placements_judged", int64(len(cases)/2))
 }
